@@ -199,6 +199,8 @@ def remote_store_case(kind, acts, names, page):
         return True, ''
     try:
         return loop.run_until_complete(go())
+    except fakes.RequestStorm:
+        return False, f'{kind}: more than {svc.max_requests} requests - an operation retries without bound'
     except RecursionError:
         return False, f'{kind}: unbounded recursion (re-authentication loop)'
     except Exception as e:
